@@ -10,12 +10,6 @@ max_players `m`, num_balls_known `k`; requests that are not enabled are skipped.
 namespace MpfVerif.C06
 open MpfVerif.Game
 
-def start0 (b m k : Nat) : St := { bpg := b, maxPlayers := m, known := k }
-
-theorem start0_inv (b m k : Nat) : GInv (start0 b m k) := by
-  refine ⟨by simp [start0, tr, okFrom], ?_, by simp [start0]⟩
-  simp [pcOk, start0, tr, lastOf]
-
 /-- The lifecycle trace: after ANY op sequence the emitted events start with game_will_start and every event is one the
 grammar allows right after its predecessor (`follows`; after game_ended only a new game_will_start) — i.e. the trace is a
 prefix of (game_will_start game_starting game_started turn* game_will_end game_ending game_ended)*; and the coroutine's
